@@ -186,23 +186,32 @@ feature calt {
 _GLYPHS = [".notdef", "a", "b", "c", "d", "e", "f", "i", "f_i", "acutecomb", "gravecomb", "x", "y"]
 
 
-def build_layout_font():
+def build_layout_font(cff=False):
     from fontTools.fontBuilder import FontBuilder
     from fontTools.pens.ttGlyphPen import TTGlyphPen
     from fontTools.feaLib.builder import addOpenTypeFeaturesFromString
 
-    fb = FontBuilder(1000, isTTF=True)
+    fb = FontBuilder(1000, isTTF=not cff)
     fb.setupGlyphOrder(_GLYPHS)
     fb.setupCharacterMap({0x61 + i: g for i, g in enumerate(["a", "b", "c", "d", "e", "f"])} | {0x69: "i", 0x301: "acutecomb", 0x300: "gravecomb"})
     glyphs = {}
     for k, g in enumerate(_GLYPHS):
-        pen = TTGlyphPen(None)
+        if cff:
+            from fontTools.pens.t2CharStringPen import T2CharStringPen
+
+            pen = T2CharStringPen(500 + 3 * k, None)
+        else:
+            pen = TTGlyphPen(None)
         pen.moveTo((0, 0))
         pen.lineTo((100 + k, 0))
         pen.lineTo((100 + k, 100 + 2 * k))
         pen.closePath()
-        glyphs[g] = pen.glyph()
-    fb.setupGlyf(glyphs)
+        glyphs[g] = pen.getCharString() if cff else pen.glyph()
+    if cff:
+        # (CFF keeps a glyph order of its own -- the charset -- next to the font's)
+        fb.setupCFF("L-R", {"FullName": "L R"}, glyphs, {})
+    else:
+        fb.setupGlyf(glyphs)
     fb.setupHorizontalMetrics({g: (500 + 3 * k, k) for k, g in enumerate(_GLYPHS)})
     fb.setupHorizontalHeader(ascent=800, descent=-200)
     fb.setupNameTable({"familyName": "L", "styleName": "R"})
@@ -280,7 +289,17 @@ def _sem(font, obj):
 def name_level_facts(font):
     """cmap, metrics, outlines and what each lookup does to each *named* glyph"""
     facts = {"cmap": dict(font.getBestCmap()), "hmtx": dict(font["hmtx"].metrics)}
-    facts["glyf"] = {g: tuple(font["glyf"][g].getCoordinates(font["glyf"])[0]) for g in font.getGlyphOrder()}
+    if "glyf" in font:
+        facts["glyf"] = {g: tuple(font["glyf"][g].getCoordinates(font["glyf"])[0]) for g in font.getGlyphOrder()}
+    else:
+        from fontTools.pens.recordingPen import RecordingPen
+
+        gs = font.getGlyphSet()
+        facts["outlines"] = {}
+        for g in font.getGlyphOrder():
+            rp = RecordingPen()
+            gs[g].draw(rp)
+            facts["outlines"][g] = repr(rp.value)
     for tag in ("GPOS", "GSUB"):
         if tag not in font:
             continue
@@ -319,17 +338,18 @@ def coverage_unsorted(font):
     return bad
 
 
-def gen_order(rng):
+def gen_order(rng, i=0):
     rest = _GLYPHS[1:]
     rng.shuffle(rest)
-    return {"new_order": [".notdef"] + rest}
+    # every third case: the same font with CFF outlines
+    return {"new_order": [".notdef"] + rest, "cff": i % 3 == 2}
 
 
-def reorder_and_reload(new_order):
+def reorder_and_reload(new_order, cff=False):
     from nanoemoji.reorder_glyphs import reorder_glyphs
     from fontTools.ttLib import TTFont
 
-    font = build_layout_font()
+    font = build_layout_font(cff)
     before = name_level_facts(font)
     reorder_glyphs(font, list(new_order))
     buf = io.BytesIO()
